@@ -121,13 +121,20 @@ def r2_clone_only(ctx, cg, sw):
             ctx.ok("C13.R2", f, f.node, f"{len(seen)} reachable functions: every state write goes to a clone / a caller-owned working state", construct=f"def {f.name}")
     # each scipy job state is a clone filled from the model state (never the live one)
     f = ctx.ix.func("leaspy.algo.personalize.scipy_minimize", "ScipyMinimizeAlgorithm._compute_individual_parameters", "C13.R2")
-    stores = [st for st in statements(f.node) if isinstance(st, ast.Assign) and isinstance(st.targets[0], ast.Subscript) and U(st.targets[0].value) == "states"]
-    ok = bool(stores) and all(isinstance(s.value, ast.Call) and isinstance(s.value.func, ast.Attribute) and s.value.func.attr == "clone" for s in stores)
-    ctx.check(ok, "C13.R2", f, stores[0] if stores else f.node, "per-subject working states are clones", "a per-subject working state is not a clone of the model state", construct="states[idx] = state.clone(...)")
+    stores = [st for st in ast.walk(f.node) if isinstance(st, ast.Assign) and isinstance(st.targets[0], ast.Subscript) and isinstance(st.targets[0].value, ast.Name)
+              and (sw.cg.expr_type(st.value, f, sw.types(f)) == sw.state_cls or (isinstance(st.value, ast.Name) and sw.provenance(f).get(st.value.id)))]
+    if not stores:
+        ctx.unknown("C13.R2", f, f.node, "cannot find the container of per-subject working states in scipy_minimize", construct="per-subject states")
+    containers = {U(st.targets[0].value) for st in stores}
+    for st in stores:
+        v = st.value
+        is_clone = isinstance(v, ast.Call) and isinstance(v.func, ast.Attribute) and v.func.attr == "clone"
+        ctx.check(is_clone, "C13.R2", f, st, "per-subject working state is a clone", f"per-subject working state is `{U(v)}`, not a clone of the model state: every subject's optimisation writes the live model state")
     for c in ast.walk(f.node):
         if isinstance(c, ast.Call) and isinstance(c.func, ast.Attribute) and c.func.attr in ("put_data_variables", "put_individual_parameters", "reset_data_variables"):
-            a0 = U(c.args[0]) if c.args else ""
-            ctx.check(a0.startswith("states["), "C13.R2", f, c, "writes a per-subject clone", f"`{U(c.func)}` is applied to `{a0}` - the live model state - in scipy_minimize")
+            a0 = c.args[0] if c.args else None
+            good = isinstance(a0, ast.Subscript) and U(a0.value) in containers
+            ctx.check(good, "C13.R2", f, c, "writes a per-subject clone", f"`{U(c.func)}` is applied to `{U(a0) if a0 is not None else ''}` - not one of the per-subject clones - in scipy_minimize")
 
 
 def r3_mcmc_personalize(ctx, cg, sw):
